@@ -14,6 +14,7 @@ import (
 	"os"
 	"os/exec"
 	"path/filepath"
+	"runtime/debug"
 	"runtime/pprof"
 	"sort"
 	"strings"
@@ -384,12 +385,14 @@ func TestCheck(t *testing.T) {
 		supervise()
 		return
 	}
+	// Every replay allocates four ledgers; collect less often (the live heap is small).
+	debug.SetGCPercent(400)
 	r := vk.Start("C19", "model_checking", 165*time.Second, 22*time.Minute)
 	dir := os.Getenv("C19_DIR")
-	if dir == "" {
-		d, cleanup := vk.Scratch("c19")
-		defer cleanup()
+	if dir == "" { // development mode without the supervisor (C19_NOSUP=1)
+		d, _ := vk.Scratch("c19")
 		dir = d
+		defer vk.CleanScratch()
 	}
 	scs, err := scenarios(r, dir)
 	if err != nil {
@@ -456,7 +459,7 @@ func TestCheck(t *testing.T) {
 		for {
 			time.Sleep(5 * time.Second)
 			running.Range(func(k, v any) bool {
-				if time.Since(v.(time.Time)) > 150*time.Second {
+				if time.Since(v.(time.Time)) > 300*time.Second {
 					fmt.Println("HANG: schedule did not reach quiescence:", k)
 					os.Exit(4)
 				}
@@ -726,11 +729,13 @@ func supervise() {
 	}
 	if code == 0 || code == 1 || code == 3 {
 		cleanup()
+		vk.CleanScratch()
 		os.Exit(code)
 	}
 	if os.Getenv("VERIF_REPLAY") != "" {
 		fmt.Printf("replay: REPRODUCED: the process running the recorded schedule died (exit %d; panic or hang in the subject, see the trace above)\n", code)
 		cleanup()
+		vk.CleanScratch()
 		os.Exit(1)
 	}
 	// abnormal end: find the culprit among the schedules in flight
@@ -761,7 +766,7 @@ func supervise() {
 			if err != nil {
 				what = "panic"
 			}
-		case <-time.After(200 * time.Second):
+		case <-time.After(330 * time.Second):
 			_ = pc.Process.Kill()
 			what = "deadlock"
 		}
@@ -787,6 +792,7 @@ func supervise() {
 		os.Exit(3)
 	}
 	cleanup()
+	vk.CleanScratch()
 	r.Finish(map[string]any{"states": 1, "transitions": 1, "traces_validated_against_impl": len(files), "exhaustive": false}, []string{"the explorer process died; only the culprit schedule is reported"})
 }
 
